@@ -15,6 +15,14 @@
        domain): every valid input with at most 19 significant digits whose Number satisfies
        [fast_path_applies] is parsed to exactly RN (dec_value ...) in all eight configurations and both
        build modes; and the complete functional description of the fast path ([try_fast_path_eq]);
+     - the big-integer SLOW PATH (proofs/SlowFacts1*.v, SlowFacts2*.v, TruncFacts*.v; integers only):
+       [parse_mantissa_spec] (the digits re-read as a big integer: first MAX_DIGITS significant digits,
+       + one sticky digit iff a later digit is non-zero; never panics), [truncation_preserves_rounding]
+       (that truncation never changes the correctly rounded result), [positive_digit_comp_correct] /
+       [slow_positive_exact] (exponent >= 0: the result is the correctly rounded exact value, no premise),
+       [negative_digit_comp_correct] (exponent < 0: the result is the correctly rounded value PROVIDED the
+       declined estimate is good enough that the true rounding is b or its successor - the one premise
+       that the extended-precision stage must supply, see props/C11.v);
      - no unchecked access on any input ([parse_float_float_or_panic]).
     See props/C11.v (extended-precision stage), props/C12.v (big integers), props/C18.v (final
     rounding) for the other stages; what is not proved is attacked by the directed search of the
@@ -23,8 +31,8 @@
 From Coq Require Import ZArith QArith List Bool Reals.
 From Coq Require Import Floats.SpecFloat.
 From Flocq Require Import Core.Core.
-From ML Require Import base.RustSem model.Fmt model.FloatOps model.Number model.Parse model.Top spec.Decimal spec.Round spec.RoundFacts
-  gen.Consts gen.Tables gen.BTables gen.PowDump proofs.ParseFacts proofs.Glue proofs.NoUB proofs.FastPathFacts proofs.EndToEnd.
+From ML Require Import base.RustSem model.Fmt model.FloatOps model.Number model.Parse model.Vec model.Bigint model.Slow model.Top spec.Decimal spec.Round spec.RoundFacts spec.DigitsSuffice spec.RneZ
+  gen.Consts gen.Tables gen.BTables gen.PowDump proofs.ParseFacts proofs.Glue proofs.NoUB proofs.FastPathFacts proofs.EndToEnd proofs.LimbVal proofs.RoundingFactsZ proofs.NumFacts proofs.TruncFacts proofs.TruncFacts2 proofs.SlowFacts1 proofs.SlowFacts1b proofs.SlowFacts2 proofs.SlowFacts2b proofs.SlowFacts2c.
 Import ListNotations.
 
 Open Scope Z_scope.
@@ -41,21 +49,23 @@ Theorem C02_RN_spec :
          let r := round radix2 (FLT_exp (femin f) (prec f)) ZnearestE (Q2R v) in
          if Rlt_bool r (bpow radix2 (emax f))
          then
-          0 <= RN f v < inf_bits f /\
+          0 <= RN f v < RoundFacts.inf_bits f /\
           (let s := sf_of_bits f (RN f v) in
            valid_binary (prec f) (emax f) s = true /\
            BinarySingleNaN.is_finite_SF s = true /\
            BinarySingleNaN.sign_SF s = false /\ bits_of_sf f s = RN f v /\ BinarySingleNaN.SF2R radix2 s = r)
-         else RN f v = inf_bits f /\ sf_of_bits f (RN f v) = S754_infinity false.
+         else RN f v = RoundFacts.inf_bits f /\ sf_of_bits f (RN f v) = S754_infinity false.
 Proof. exact RN_spec. Qed.
 
 Theorem C02_RN_range :
-  forall f : format, sfmt_ok f = true -> forall v : Q, (0 <= v)%Q -> 0 <= RN f v <= inf_bits f.
+  forall f : format,
+         sfmt_ok f = true -> forall v : Q, (0 <= v)%Q -> 0 <= RN f v <= RoundFacts.inf_bits f.
 Proof. exact RN_range. Qed.
 
 Theorem C02_overflow_threshold_iff :
   forall f : format,
-         sfmt_ok f = true -> forall v : Q, (0 <= v)%Q -> RN f v = inf_bits f <-> (overflow_thresholdQ f <= v)%Q.
+         sfmt_ok f = true ->
+         forall v : Q, (0 <= v)%Q -> RN f v = RoundFacts.inf_bits f <-> (overflow_thresholdQ f <= v)%Q.
 Proof. exact overflow_threshold_iff. Qed.
 
 Theorem C02_underflow_threshold_iff :
@@ -113,6 +123,131 @@ Theorem C02_parse_float_fast_correct :
          parse_float c TABLES BT L f b i fr e = Ok (RN f (dec_value i fr e)).
 Proof. exact parse_float_fast_correct. Qed.
 
+Theorem C02_scientific_exponent_spec :
+  forall (b : build) (n : number) (d : Z),
+         ndigits_is (nmant n) d ->
+         nmant n < 2 ^ 64 -> - 2 ^ 31 <= nexp n < 2 ^ 31 - 64 -> scientific_exponent b n = Ok (nexp n + d - 1).
+Proof. exact scientific_exponent_spec. Qed.
+
+Theorem C02_parse_mantissa_spec :
+  forall (c : config) (T : tables) (L : limits) (b : build) (maxd : Z) (i fr : list Z),
+         pm_tables_ok c T = true ->
+         10 ^ (maxd + 1) <= B64 ^ BIGINT_LIMBS L ->
+         0 < maxd ->
+         forallb digitb i = true ->
+         forallb digitb fr = true ->
+         (forall (ch : Z) (r : list Z), i = ch :: r -> ch <> 48) ->
+         let s := strip0 (i ++ fr) in
+         let D := zlen s in
+         let k := Z.to_nat maxd in
+         exists (v : vec) (cnt : Z),
+           parse_mantissa c T L b i fr maxd = Ok (v, cnt) /\
+           vgood c L v /\
+           (D <= maxd -> lval (vl v) = digits_to_Z s /\ cnt = D) /\
+           (maxd < D ->
+            if all0 (skipn k s)
+            then lval (vl v) = digits_to_Z (firstn k s) /\ cnt = maxd
+            else lval (vl v) = digits_to_Z (firstn k s) * 10 + 1 /\ cnt = maxd + 1) /\
+           (s <> [] -> 0 < lval (vl v)) /\ 0 <= lval (vl v) < 10 ^ (maxd + 1) /\ 0 <= cnt <= maxd + 1.
+Proof. exact parse_mantissa_spec. Qed.
+
+Theorem C02_truncation_preserves_rounding :
+  forall f : format,
+         sfmt_ok f = true ->
+         trunc_ok f = true ->
+         forall (s : list Z) (X : Z),
+         forallb digitb s = true ->
+         hd 48 s <> 48 ->
+         MAX_DIGITS f < zlen s ->
+         let n := Z.to_nat (MAX_DIGITS f) in
+         let N0 := digits_to_Z (firstn n s) in
+         let rest := skipn n s in
+         let k := X + zlen s - MAX_DIGITS f in
+         10 ^ (MAX_DIGITS f - 1) <= N0 < 10 ^ MAX_DIGITS f /\
+         (TruncFacts.all0 rest = false -> RN f (decQ (digits_to_Z s) X) = RN f (decQ (N0 * 10 + 1) (k - 1))) /\
+         (TruncFacts.all0 rest = true ->
+          digits_to_Z s = N0 * 10 ^ (zlen s - MAX_DIGITS f) /\
+          decQ (digits_to_Z s) X == decQ N0 k /\ RN f (decQ (digits_to_Z s) X) = RN f (decQ N0 k)).
+Proof. exact truncation_preserves_rounding. Qed.
+
+Theorem C02_positive_digit_comp_correct :
+  forall (c : config) (T : tables) (L : limits) (f : format) (b : build) (bigmant : vec) (exponent : Z),
+         pdc_side c T L f = true ->
+         vgood c L bigmant ->
+         0 < lval (vl bigmant) ->
+         0 <= exponent < 2 ^ 31 ->
+         lval (vl bigmant) * 10 ^ exponent < B64 ^ BIGINT_LIMBS L ->
+         exists (fp : Num.extfloat) (w : Z),
+           positive_digit_comp c T L f b bigmant exponent = Ok fp /\
+           Num.extended_to_float f b fp = Ok w /\ rne_bits f (lval (vl bigmant) * 10 ^ exponent) 1 w.
+Proof. exact positive_digit_comp_correct. Qed.
+
+Theorem C02_slow_positive_exact :
+  forall (c : config) (T : tables) (L : limits) (f : format) (b : build) (fp : Num.extfloat)
+           (i fr : list Z) (e : Z),
+         slow_side c T L f = true ->
+         2 ^ 63 <= Num.mant fp < 2 ^ 64 ->
+         forallb digitb i = true ->
+         forallb digitb fr = true ->
+         (forall (ch : Z) (r : list Z), i = ch :: r -> ch <> 48) ->
+         let s := strip0 (i ++ fr) in
+         let D := zlen s in
+         let X := e - zlen fr in
+         let W := digits_to_Z (i ++ fr) in
+         s <> [] ->
+         0 <= X <= 2 ^ 29 ->
+         zlen i + zlen fr <= 2 ^ 29 ->
+         D <= MAX_DIGITS f \/ all0 (skipn (Z.to_nat (MAX_DIGITS f)) s) = true ->
+         W * 10 ^ X < B64 ^ BIGINT_LIMBS L ->
+         exists (r : Num.extfloat) (w : Z),
+           slow c T L f b (parse_spec i fr e) fp i fr = Ok r /\
+           Num.extended_to_float f b r = Ok w /\ rne_bits f (dec_num W X) (dec_den X) w.
+Proof. exact slow_positive_exact. Qed.
+
+Theorem C02_rne_bits_succ_mid :
+  forall f : format,
+         fmt_ok f = true ->
+         2 <= ewidth f ->
+         forall x n d w : Z,
+         0 <= x < inf_bits f ->
+         0 < n ->
+         0 < d ->
+         rne_bits f n d w ->
+         x <= w <= x + 1 ->
+         let M := dec_mant f x in
+         let e := dec_exp f x - 1 in
+         w = x + 1 <->
+         sc_num n e > (2 * M + 1) * sc_den d e \/ sc_num n e = (2 * M + 1) * sc_den d e /\ Z.odd M = true.
+Proof. exact rne_bits_succ_mid. Qed.
+
+Theorem C02_negative_digit_comp_correct :
+  forall (c : config) (f : format) (b : build) (bigmant : vec) (fp : Num.extfloat) (exponent N : Z),
+         rfmt_ok f = true ->
+         fmt_ok f = true ->
+         limbs_ok (vl bigmant) ->
+         is_normalized (vl bigmant) = true ->
+         lval (vl bigmant) = N ->
+         0 < N ->
+         62 <= vcap bigmant ->
+         (alloc c = false -> vcap bigmant = 62) ->
+         zlen (vl bigmant) <= vcap bigmant ->
+         2 ^ 63 <= Num.mant fp < 2 ^ 64 ->
+         -63 <= Num.exp fp <= 2 ^ 30 ->
+         - 2 ^ 30 <= exponent < 0 ->
+         let bbits := rd_bits f fp in
+         let Mb := dec_mant f bbits in
+         let Eb := dec_exp f bbits in
+         let beta := Eb - 1 - exponent in
+         N * 2 ^ Z.max 0 (- beta) < B64 ^ 62 ->
+         (2 * Mb + 1) * 5 ^ (- exponent) * 2 ^ Z.max 0 beta < B64 ^ 62 ->
+         forall w : Z,
+         rne_bits f N (10 ^ (- exponent)) w ->
+         bbits <= w <= bbits + 1 ->
+         exists r : Num.extfloat,
+           negative_digit_comp c TABLES LIMITS f b bigmant fp exponent = Ok r /\
+           Num.extended_to_float f b r = Ok w.
+Proof. exact negative_digit_comp_correct. Qed.
+
 Theorem C02_parse_float_float_or_panic :
   forall (c : config) (T : tables) (BT : btables) (L : limits) (f : format) 
            (b : build) (i fr : list Z) (e : Z),
@@ -134,4 +269,11 @@ Print Assumptions C02_parse_number_value_bracket.
 Print Assumptions C02_try_fast_path_eq.
 Print Assumptions C02_fast_ok_all.
 Print Assumptions C02_parse_float_fast_correct.
+Print Assumptions C02_scientific_exponent_spec.
+Print Assumptions C02_parse_mantissa_spec.
+Print Assumptions C02_truncation_preserves_rounding.
+Print Assumptions C02_positive_digit_comp_correct.
+Print Assumptions C02_slow_positive_exact.
+Print Assumptions C02_rne_bits_succ_mid.
+Print Assumptions C02_negative_digit_comp_correct.
 Print Assumptions C02_parse_float_float_or_panic.
